@@ -169,6 +169,17 @@ class WebSession(object):
 
                 request = self._original_request.copy()
                 request.url = url
+
+                # The copy carries the Host, Cookie and Authorization fields
+                # derived for the original URL. Reset them to those of a new
+                # request so they are derived again for the new URL.
+                new_fields = self._request_factory(url).fields
+
+                for name in ('Host', 'Cookie', 'Authorization'):
+                    request.fields.pop(name, None)
+
+                    for value in new_fields.get_list(name):
+                        request.fields.add(name, value)
             else:
                 request = self._request_factory(url)
 
